@@ -142,3 +142,20 @@ pub const DEFAULT_PORT: u16 = get_port(&PortConfig { base: 8000 }, 80);
 const unsafe fn get_port_unsafe(config: &PortConfig) -> u16 {
     config.base
 }
+
+// API attributes on a concrete-deps function stay on the function: the nested invocation mirrors trait-method
+// attributes onto the methods of `impl Trait for Impl<T>`, where e.g. `#[deprecated]` is rejected
+/// documented
+#[entrait(CDeprecated)]
+#[deprecated(note = "use something else")]
+#[must_use]
+fn c_deprecated(deps: &PortConfig) -> u16 {
+    deps.base
+}
+/// documented
+#[entrait(pub CDocumented)]
+#[inline]
+#[must_use = "result"]
+pub fn c_documented(deps: &PortConfig) -> u16 {
+    deps.base
+}
